@@ -44,6 +44,56 @@ class RmvError(OSError):
     """the inner cacher's rmv failing (what DiskCacher.rmv does when unlink raises: PermissionError, vanished file)"""
 
 
+class BodyBaseErr(BaseException):
+    """a with-body left through something that is not an `Exception`"""
+
+
+_REPAIRED = {}
+
+
+def is_repaired():
+    """does the code under test contain fixes/C19-nested-write-wait-raises.diff?  Probed by behaviour: a thread inside a
+    with-block asks for the write lock of a slot somebody else reads; the repaired code raises, the original goes to sleep"""
+    repo = os.environ.get("COBA_REPO", "/repo")
+    if repo in _REPAIRED:
+        return _REPAIRED[repo]
+    import coba.context.cachers as M
+    from coba.exceptions import CobaException
+
+    class Slept(BaseException):
+        pass
+
+    class P:
+        def sleep(self, secs=0):
+            raise Slept()
+
+        def __getattr__(self, name):
+            import time as realtime
+            return getattr(realtime, name)
+    res = False
+    undo = patch_time(M, P())
+    try:
+        inner = M.MemoryCacher()
+        inner.get_set("b", 1)
+        cc = M.ConcurrentCacher(inner)
+        cm = cc.get_set("a", lambda: 1)
+        cm.__enter__()
+        cc._array[cc._index("b")] = 1          # another caller reads 'b'
+        try:
+            cc.rmv("b")
+        except CobaException:
+            res = True
+        except Slept:
+            res = False
+    except BaseException:
+        res = False
+    finally:
+        for name, val in undo:
+            setattr(M, name, val)
+    _REPAIRED[repo] = res
+    return res
+
+
 class BaseErr(BaseException):
     """a getter failure that is not an `Exception` (like KeyboardInterrupt / SystemExit)"""
 
@@ -114,6 +164,7 @@ def run_sched(case):
     progs = case["progs"]
     parts = int(case.get("parts", 2))
     n = len(progs)
+    repaired = is_repaired()
     s = Sched(n, make_chooser(case), max_steps=int(case.get("max_steps", 6000)))
     arr = SArray([0] * 2 ** 16).attach(s)
     cur = [None] * n                      # key the thread is operating on (labels the lock events)
@@ -234,6 +285,8 @@ def run_sched(case):
                 return nullcontext(val)
             start_write(ki, "populates")
             try:
+                s.log(("ccreate", ki))            # a DiskCacher creates the (incomplete) file here; the entry is complete only at cpop
+                s.yp()
                 try:
                     with inner.get_set(key, getter) as val:
                         pass
@@ -256,6 +309,9 @@ def run_sched(case):
         def getter():
             tid = s.me()
             getter_runs[ki] = getter_runs.get(ki, 0) + 1
+            if v is None and fail_at == "call":
+                s.yp()
+                raise GetterError("getter raises when called")
             if keys[ki] in inner:
                 viol.append(("single-flight", "getter for key %r called by thread %d although the entry is cached" % (keys[ki], tid)))
             if getting.get(ki):
@@ -266,7 +322,7 @@ def run_sched(case):
                 try:
                     for j in range(parts + 1):
                         s.yp()
-                        if v is None and j == min(fail_at, parts):
+                        if v is None and j == min(int(fail_at), parts):
                             if base:
                                 st["base_raised"] = True
                                 raise BaseErr("getter")
@@ -294,6 +350,11 @@ def run_sched(case):
                 cur[tid] = ki
                 try:
                     cm = cc.get_set(keys[ki], make_getter(ki, ins))
+                except CobaException:
+                    end_read(ki)
+                    if repaired and stacks[tid] and s.relabel_last_spin(("refuse", ki)):
+                        outcomes[tid].append("nested-write-refused:CobaException")
+                    raise
                 except BaseException:
                     end_read(ki)
                     raise
@@ -325,6 +386,8 @@ def run_sched(case):
             elif op == "raise":
                 s.yp()
                 s.log(("raiseBody",))
+                if len(ins) > 1 and ins[1] == "base":
+                    raise BodyBaseErr("body")
                 raise BodyError("body")
             elif op == "rmv":
                 ki = ins[1]
@@ -337,6 +400,8 @@ def run_sched(case):
                 except CobaException:
                     if ki in stacks[tid]:
                         outcomes[tid].append("rmv-while-reading:CobaException")
+                    elif repaired and stacks[tid] and s.relabel_last_spin(("refuse", ki)):
+                        outcomes[tid].append("nested-write-refused:CobaException")
                     raise
                 finally:
                     rmv_fail[tid] = False
@@ -362,6 +427,8 @@ def run_sched(case):
                 outcomes[tid].append("BodyError")
             except RmvError:
                 outcomes[tid].append("RmvError")
+            except BodyBaseErr:
+                outcomes[tid].append("BodyBaseErr")
             except BaseErr:
                 outcomes[tid].append("BaseErr")
             except CobaException as e:
@@ -379,6 +446,23 @@ def run_sched(case):
 
     def on_stop(sch):
         snap["depth_live"] = [len(stacks[i]) for i in sch.live_at_end]
+        # wait-for edges of the live (spinning) threads, from the real array and _locks
+        held = {}
+        for (ident, key), val in list(getattr(cc, "_locks", {}).items()):
+            t = sch.ids.get(ident)
+            if t is not None and key in kpos and val != 0:
+                held.setdefault(t, []).append((idxs[kpos[key]], val))
+        edges = []
+        for i in sch.live_at_end:
+            if cur[i] is None:
+                continue
+            slot = idxs[cur[i]]
+            a = list.__getitem__(arr, slot)
+            for j, hs in held.items():
+                for (sl, val) in hs:
+                    if sl == slot and ((a == -1 and val == -1) or (a > 0 and val > 0)):
+                        edges.append([i, j])
+        snap["wait_edges"] = sorted([list(e) for e in set(map(tuple, edges))])
     s.on_stop = on_stop
     undo = patch_time(M, FakeTime(s, realtime))
     try:
@@ -401,7 +485,7 @@ def run_sched(case):
             cache.append(None)
     return {
         "status": status, "events": [[t, list(e)] for t, e in s.events], "steps": s.steps,
-        "live": list(getattr(s, "live_at_end", [])), "depth_live": snap.get("depth_live", []),
+        "live": list(getattr(s, "live_at_end", [])), "depth_live": snap.get("depth_live", []), "wait_edges": snap.get("wait_edges", []), "repaired": repaired,
         "arr_keys": [list.__getitem__(arr, i) for i in idxs], "arr_nonzero": nonzero,
         "locks": sorted([[t, k, v] for (t, k), v in locks.items()], key=str),
         "cache": cache, "outcomes": outcomes, "received": received, "viol": viol,
@@ -415,7 +499,7 @@ def run_sched(case):
 
 def run_disk(case):
     """DiskCacher with the write cut by a raising getter / by truncating the file / a zero-length file"""
-    from coba.context.cachers import DiskCacher
+    from coba.context.cachers import DiskCacher, ConcurrentCacher
     d = tempfile.mkdtemp(prefix="c19disk")
     L1, L2 = list(case["lines"]), list(case["lines2"])
     cut = case["cut"]
@@ -423,6 +507,9 @@ def run_disk(case):
     out = {"stage1": None, "present_after_stage1": None, "size_after_stage1": None, "getter2_called": False}
     try:
         dc = DiskCacher(d)
+        cc = None
+        if case.get("conc"):
+            cc = dc = ConcurrentCacher(DiskCacher(d))      # the way coba uses it in worker processes
         path = os.path.join(d, key + ".gz")
         if cut[0] == "getter":
             p = cut[1]
@@ -481,6 +568,9 @@ def run_disk(case):
             except Exception as e:
                 out["stage2"] = ["raised", type(e).__name__]
         out["present_after_stage2"] = os.path.exists(path)
+        if cc is not None:
+            out["array_nonzero"] = [[i, v] for i, v in enumerate(cc._array) if v != 0][:4]
+            out["locks_nonzero"] = sorted(str(k[1]) for k, v in getattr(cc, "_locks", {}).items() if v != 0)
         return out
     finally:
         shutil.rmtree(d, ignore_errors=True)
